@@ -316,3 +316,55 @@ func (t *prevTracker) check(next orb.Geometry) int {
 	t.ref, t.snap = next, fmt.Sprint(next)
 	return ok
 }
+
+// mapGeom returns a copy of g with f applied to every vertex, in storage order (the harness's own mapper: it does
+// not go through the library's projection helpers).
+func mapGeom(g orb.Geometry, f func(orb.Point) orb.Point) orb.Geometry {
+	pts := func(ps []orb.Point) []orb.Point {
+		if ps == nil {
+			return nil
+		}
+		out := make([]orb.Point, len(ps))
+		for i, p := range ps {
+			out[i] = f(p)
+		}
+		return out
+	}
+	switch v := g.(type) {
+	case orb.Point:
+		return f(v)
+	case orb.MultiPoint:
+		return orb.MultiPoint(pts(v))
+	case orb.LineString:
+		return orb.LineString(pts(v))
+	case orb.Ring:
+		return orb.Ring(pts(v))
+	case orb.MultiLineString:
+		out := make(orb.MultiLineString, len(v))
+		for i := range v {
+			out[i] = orb.LineString(pts(v[i]))
+		}
+		return out
+	case orb.Polygon:
+		out := make(orb.Polygon, len(v))
+		for i := range v {
+			out[i] = orb.Ring(pts(v[i]))
+		}
+		return out
+	case orb.MultiPolygon:
+		out := make(orb.MultiPolygon, len(v))
+		for i := range v {
+			out[i] = mapGeom(v[i], f).(orb.Polygon)
+		}
+		return out
+	case orb.Collection:
+		out := make(orb.Collection, len(v))
+		for i := range v {
+			out[i] = mapGeom(v[i], f)
+		}
+		return out
+	case orb.Bound:
+		return orb.Bound{Min: f(v.Min), Max: f(v.Max)}
+	}
+	return g
+}
